@@ -56,8 +56,8 @@ type Behaviour struct {
 
 type Job struct {
 	Behaviours []Behaviour `json:"behaviours"`
-	Random     int         `json:"random"`      // additional unsteered runs (random n, c, outcomes, timing)
-	RealNever  int         `json:"real_never"`  // runs in which a silent upstream is left to the worker's own 5 s timeout
+	Random     int         `json:"random"`     // additional unsteered runs (random n, c, outcomes, timing)
+	RealNever  int         `json:"real_never"` // runs in which a silent upstream is left to the worker's own 5 s timeout
 	StepWaitMs int         `json:"step_wait_ms"`
 }
 
